@@ -42,7 +42,10 @@ REQUIRED_THEOREMS = ["Gv.Props.C03." + n for n in [
     "partition_counterexample_overflow_panic", "partition_patched_witness", "addRange_in_bounds", "newPSet_inv",
     "partition_outcome", "phylip_outcome_partial", "phylip_multi_wellformed", "clustal_outcome_partial",
     "nexus_outcome_partial", "clustal_no_panic", "phylip_no_panic", "nexus_no_panic", "nexus_outcome_fixed", "clustal_no_hang", "clustal_outcome_fixed_partial",
-    "phylip_no_hang", "phylip_outcome_fixed", "clustal_outcome_fixed"]]
+    "phylip_no_hang", "phylip_outcome_fixed", "clustal_outcome_fixed",
+    # consistency with the header counts / the end-of-stream marker (Proofs/PhylipHeader.lean)
+    "phylip_counts_as_read", "phylip_header_consistent", "phylip_eos_blank", "phylip_eos_blank_to_eof",
+    "phylip_multi_counts", "phylip_outcome_full"]]
 TRUSTED = ["bufio.Reader / UTF-8 rune decoding (inputs with bytes >= 128 are judged by the predicate only)",
            "python watchdog: hang = no answer within TIMEOUT",
            "tools/extract/fmtfacts.go: recognises the proposed guards syntactically; the models are parametric in these facts"]
